@@ -12,3 +12,5 @@ CONSTANTS
   MayPause = TRUE
   StopOnAckFailure = FALSE
   RetryAfterPause = FALSE
+  MayStale = FALSE
+  ExitFlushes = TRUE
